@@ -23,6 +23,18 @@ def matches(obs, exp):
     return obs == exp
 
 
+def stack_ok(results, rules, prev):
+    """VMRunHist!StackAfter: the operand stack pointer after each invocation (prev: after loading the library)."""
+    for j, (o, rule) in enumerate(zip(results, rules)):
+        sp = o.get("sp")
+        if sp is None:
+            return None
+        if (rule == "same" and sp != prev) or (rule == "result" and sp != 0) or sp not in (-1, 0):
+            return j
+        prev = sp
+    return None
+
+
 def run(cx):
     cx.level = "model_checking"
     drv = cx.go_build("vmrun")
@@ -62,14 +74,15 @@ def run(cx):
                 inv.append({"api": rnd.choice(["RunCode", "Call"]), "kind": kind, "ctx": ctxk, "late": late})
             exp = [{"normal": "value", "error": "index error", "panic": "panic", "deeppanic": "panic", "overflow": "anyerror", "opoverflow": "anyerror", "cancelled": "ctxerr",
                     "impok": "value", "imperr": "anyerror", "impcancel": "ctxerr", "impmod": "value"}[v["kind"]] for v in inv]
-            hists.append({"inv": inv, "exp": exp})
-    rows = [{"id": i, "inv": h["inv"], "exp": h["exp"]} for i, h in enumerate(hists)]
+            hists.append({"inv": inv, "exp": exp, "stack": ["same" if v["api"] == "Call" else ("result" if e == "value" else "atmost") for v, e in zip(inv, exp)]})
+    rows = [{"id": i, "inv": h["inv"], "exp": h["exp"], "stack": h["stack"]} for i, h in enumerate(hists)]
     hin = cx.path("hist.ndjson")
     vlib.write_ndjson(hin, rows)
     hout = cx.path("hist.out.ndjson")
     cx.run([drv, "hist", "-in", hin, "-out", hout], timeout=3000)
     outs = vlib.read_ndjson(hout)
     bad = []
+    badstack = []
     traces = []
     ninv = 0
     nontriv = 0
@@ -87,6 +100,10 @@ def run(cx):
             if not matches(o["obs"], e):
                 bad.append((r_["id"], j))
                 break
+        else:
+            j = stack_ok(res["results"], r_.get("stack", []), res.get("sp0", -1))
+            if j is not None:
+                badstack.append((r_["id"], j))
         if not any(v["api"] == "RisorCall" for v in r_["inv"]):   # risor.Call is two VM runs: its hook events are not one per invocation
             traces.append({"id": r_["id"], "events": res["events"]})
     # re-execute disagreeing histories (schedule dependent: quorum of 3)
@@ -116,6 +133,24 @@ def run(cx):
                 cx.violation("invocation %d of a history on a reused VM ended as %r, its own kind determines %r (reproduced %d/3): history=%s observed=%s" % (
                     j + 1, r_["res"]["results"][j]["obs"], r_["exp"][j], fails, json.dumps(r_["inv"]), json.dumps([o["obs"] for o in r_["res"]["results"]])),
                     {"leg": "history", "history": r_["inv"], "expected": r_["exp"], "observed": r_["res"]["results"], "events": r_["res"]["events"]})
+    # operand stack left behind by an invocation (deterministic: reported after one re-execution)
+    if badstack:
+        ids = sorted(set(i for i, _ in badstack))[:20]
+        rein = cx.path("restack.ndjson")
+        vlib.write_ndjson(rein, [rows[i] for i in ids])
+        reout = cx.path("restack.out.ndjson")
+        cx.run([drv, "hist", "-in", rein, "-out", reout, "-j", "4"], timeout=3000)
+        for r_ in vlib.read_ndjson(reout):
+            res = r_["res"]
+            j = stack_ok(res["results"], r_["stack"], res.get("sp0", -1)) if res.get("k") == "ok" else None
+            if j is None:
+                cx.notes.append("history %d: operand stack disagreement not reproduced" % r_["id"])
+                continue
+            if reported < 10:
+                cx.violation("invocation %d of a history on a reused VM left the operand stack pointer at %d (rule %r, before it: %s): history=%s" % (
+                    j + 1, res["results"][j]["sp"], r_["stack"][j], [o["sp"] for o in res["results"][:j]], json.dumps(r_["inv"])),
+                    {"leg": "stack", "history": r_["inv"], "rules": r_["stack"], "observed": res["results"]})
+            reported += 1
     # ---- V: trace validation
     langlib.tlc_conform(cx, traces, spec="TraceVMRun", prefix="trace", strip=(), nshards=8)
     rejected = []
